@@ -556,10 +556,10 @@ func c05Cumulative(total int64) *core.Finding {
 		fr := [][]byte{malformed, valid, cut, malformed}[i%4]
 		_, _, res, ok := call(fr)
 		if !ok {
-			return &core.Finding{Class: "blocks/after-many-big-frames", Detail: fmt.Sprintf("after %d MiB of big frames (complete and malformed, complete and valid, cut short) decoded in this process, ReadPacket on a %d-byte frame has not returned after 30 s and is not executing statements: it waits for something", fed>>20, len(fr))}
+			return &core.Finding{Class: "blocks/after-many-big-frames", Detail: fmt.Sprintf("while up to %d MiB of 1.3 MB frames (complete and malformed, complete and valid, cut short) are decoded one after the other in this process, a ReadPacket call on one of them has not returned after 30 s and is not executing statements: it waits for something", total>>20)}
 		}
 		if res.Budget {
-			return &core.Finding{Class: "work-unbounded/after-many-big-frames", Detail: fmt.Sprintf("after %d MiB of big frames ReadPacket exceeds its step budget on a %d-byte frame", fed>>20, len(fr))}
+			return &core.Finding{Class: "work-unbounded/after-many-big-frames", Detail: fmt.Sprintf("while up to %d MiB of 1.3 MB frames are decoded one after the other in this process, ReadPacket exceeds its step budget on one of them", total>>20)}
 		}
 		fed += int64(len(fr))
 	}
@@ -570,11 +570,11 @@ func c05Cumulative(total int64) *core.Finding {
 		p, err, res, ok := call(sm.B)
 		switch {
 		case !ok:
-			return &core.Finding{Class: "blocks/small-frame-after-many-big-ones", Detail: fmt.Sprintf("after %d MiB of big frames (complete and malformed, complete and valid, cut short) decoded in this process, ReadPacket on the valid %d-byte frame %s (% x) has not returned after 30 s and is not executing statements: it waits for something", fed>>20, len(sm.B), sm.Name, sm.B)}
+			return &core.Finding{Class: "blocks/small-frame-after-many-big-ones", Detail: fmt.Sprintf("after %d MiB of 1.3 MB frames (complete and malformed, complete and valid, cut short) decoded in this process, ReadPacket on the valid %d-byte frame %s (% x) has not returned after 30 s and is not executing statements: it waits for something", total>>20, len(sm.B), sm.Name, sm.B)}
 		case res.Budget:
-			return &core.Finding{Class: "work-unbounded/small-frame-after-many-big-ones", Detail: fmt.Sprintf("after %d MiB of big frames ReadPacket exceeds its step budget on the valid frame %s", fed>>20, sm.Name)}
+			return &core.Finding{Class: "work-unbounded/small-frame-after-many-big-ones", Detail: fmt.Sprintf("after %d MiB of 1.3 MB frames ReadPacket exceeds its step budget on the valid frame %s", total>>20, sm.Name)}
 		case res.Panic == "" && (err != nil || p == nil):
-			return &core.Finding{Class: "rejects/small-frame-after-many-big-ones", Detail: fmt.Sprintf("after %d MiB of big frames ReadPacket rejects the valid frame %s (% x): %v", fed>>20, sm.Name, sm.B, err)}
+			return &core.Finding{Class: "rejects/small-frame-after-many-big-ones", Detail: fmt.Sprintf("after %d MiB of 1.3 MB frames ReadPacket rejects the valid frame %s (% x): %v", total>>20, sm.Name, sm.B, err)}
 		}
 	}
 	return nil
